@@ -84,6 +84,15 @@ func filter(vs []BS, keep func(string) bool) []BS {
 	return out
 }
 
+func containsStr(s, sub string) bool {
+	for i := 0; i+len(sub) <= len(s); i++ {
+		if s[i:i+len(sub)] == sub {
+			return true
+		}
+	}
+	return false
+}
+
 func okResp() Resp {
 	return Resp{Status: 200, Kind: "json", Body: []F{{K: "ok", T: "b", V: "true"}}, H: []H{{K: "X-Resp", V: []BS{"r1"}}}}
 }
@@ -728,6 +737,31 @@ func families(full bool) []group {
 			}
 		}
 	}
+	// 16b. placeholders that share a segment with literal text or with another placeholder
+	comp := filter(atoms, func(s string) bool {
+		for _, sep := range []string{"-", ".", "v", "x"} {
+			if len(s) == 0 || containsStr(s, sep) {
+				return false
+			}
+		}
+		return true
+	})
+	for _, bp := range pick([]string{"/api"}, []string{"/api", "/"}) {
+		for _, tmpl := range []string{"/files/{id}-x", "/files/{id}.json/meta", "/files/v{id}", "/files/v{id}.json"} {
+			c := base
+			c.Base, c.Template = bp, tmpl
+			c.Params = []P{{Name: "id", In: "path", Type: "string"}}
+			add(sweep("template-composite-segment", c, 0, comp))
+		}
+		for _, tmpl := range []string{"/files/{a}-{b}", "/files/{a}.{b}/z"} {
+			for ai := range comp {
+				c := base
+				c.Base, c.Template = bp, tmpl
+				c.Params = []P{{Name: "a", In: "path", Type: "string", V: []BS{comp[ai]}}, {Name: "b", In: "path", Type: "string"}}
+				add(sweep("template-composite-segment", c, 1, comp))
+			}
+		}
+	}
 	for _, bp := range []string{"/a b", "/café", "/api;v=1"} {
 		c := base
 		c.Base = bp
@@ -741,34 +775,37 @@ func families(full bool) []group {
 // "values" = every atom and every concatenation of two atoms (value_alphabet_size);
 // quick uses the first entries of each configuration axis, thorough all of them.
 var familyAxes = map[string]string{
-	"path-one-placeholder":    "templates {/items/{id}, /{id}, /items/{id}/sub, /items/{id}.json, /a/b/c/{id}} x base paths {/api, /, /api/v1, /api/, \"\"} x methods {GET POST PUT DELETE PATCH HEAD OPTIONS} x values",
-	"path-two-placeholders":   "templates {/items/{a}/{b}, /{a}/{b}, /items/{a}/x/{b}} x base paths {/api, /} x atoms x atoms",
-	"query-scalar":            "parameter names {q, $top, filter[a], 'a b', é, a&b=c, %41} x base paths {/api, /} x values; plus a path value with ?# next to a query value x values",
-	"query-array":             "collectionFormat {none csv ssv tsv pipes multi} x item lists (empty, every 1-list and 2-list over the atoms, every 3-list over 5 items)",
-	"header-scalar":           "declared names {X-Val, X-Request-Id, Etag, x-val, X-VAL, X-Request-ID, X_Val} x every value that is a valid HTTP field value; plus the atoms that are not (outside the guarantee)",
-	"header-array":            "collectionFormat {none csv pipes} x item lists over the valid atoms",
-	"form-urlencoded":         "methods {POST PUT PATCH DELETE} x auth writer {no, yes} x values; field names {$top, filter[a], 'a b', é, a&b=c} x atoms",
-	"form-urlencoded-array":   "collectionFormat {none csv ssv tsv pipes multi} x item lists",
-	"form-multipart":          "methods {POST PUT PATCH DELETE} x auth writer x values; field names {$top, filter[a], 'a b', é, a\"b, a\\b, a;b} x atoms",
-	"form-multipart-array":    "collectionFormat {csv pipes multi} x item lists",
-	"file":                    "lengths {0 1 2 511 512 513 5000 70000} x 18 file names (quotes, backslashes, directories, non-ASCII, empty, dot-dot, control bytes) x 2 content patterns x with/without a form field x auth writer; file parameter names x lengths; two files x lengths x lengths; 1 MiB and 5 MiB files",
-	"body-json":               "methods {POST PUT PATCH DELETE} x auth writer x values (as string member, key suffix, array element, nested member); pairs of 15 numeric/boolean/null members (int64 and float64 boundaries); array-of-string bodies x item lists; body next to path, query and header values x atoms",
-	"body-string-schema":      "{text/plain, application/octet-stream, JSON string} x auth writer x atoms",
-	"typed-scalar":            "location {path query header urlencoded-form multipart-form} x {integer int64/int32/none, number double/float/none, boolean} x boundary literals",
-	"typed-array":             "location {query form header} x item type x {csv multi} x (empty, every 1-list, every 2-list of the boundary literals)",
-	"response-status":         "methods {GET POST PUT DELETE HEAD} x body kind {none json json-array text bytes} x statuses {200 201 202 204 400 401 403 404 409 422 500 503}, two response headers (one multi-valued, one with a lower-case name)",
-	"response-header":         "status {200 404} x every valid field value, once alone and once in a two-valued header",
-	"response-body":           "status {200 404} x {text bytes json} x values; JSON numbers at the boundaries; bodies of 1..1 MiB",
-	"response-plain-payload":  "handler returns the payload itself: success code of the description {200 201 202 204} x {json json-array text bytes} x atoms",
-	"response-error":          "handler returns an error: statuses {400 401 403 404 409 422 500 503} x produces {json text} x atoms as message",
-	"combined":                "base paths {/api, /} x auth writer x {json body, urlencoded field, multipart field} x every value valid in all positions, the same value in path, query, header and body/field, echoed in a response header and body with status 201",
-	"sibling-operations":      "descriptions with 3-4 other operations (same template under another method, longer and shorter templates): base paths {/api, /} x methods {GET PUT} x values (one placeholder) and atoms x atoms (two placeholders)",
-	"long-values":             "lengths {255 256 4096 65536} x 3 repeating units, the same value in path, query, header, body/field and echoed back",
-	"media-type-spelling":     "consumes / produces spelled with a charset parameter (application/json, text/plain)",
-	"template-shape":          "base paths {/api, /} x templates {/, /items/, /items/{id}/, literals with space, non-ASCII, '+', ':', ';'} x methods {GET POST}; base paths with space, non-ASCII, ';'",
-	"triples-path":            "thorough: every concatenation of three atoms as a path value",
-	"triples-query":           "thorough: every concatenation of three atoms as a query value",
-	"triples-header":          "thorough: every concatenation of three atoms that is a valid field value as a header value",
-	"triples-form-multipart":  "thorough: every concatenation of three atoms as a multipart field value",
-	"triples-form-urlencoded": "thorough: every concatenation of three atoms as an urlencoded field value",
+	"path-one-placeholder":       "templates {/items/{id}, /{id}, /items/{id}/sub, /items/{id}.json, /a/b/c/{id}} x base paths {/api, /, /api/v1, /api/, \"\"} x methods {GET POST PUT DELETE PATCH HEAD OPTIONS} x values",
+	"path-two-placeholders":      "templates {/items/{a}/{b}, /{a}/{b}, /items/{a}/x/{b}} x base paths {/api, /} x atoms x atoms",
+	"query-scalar":               "parameter names {q, $top, filter[a], 'a b', é, a&b=c, %41} x base paths {/api, /} x values; plus a path value with ?# next to a query value x values",
+	"query-array":                "collectionFormat {none csv ssv tsv pipes multi} x item lists (empty, every 1-list and 2-list over the atoms, every 3-list over 5 items)",
+	"header-scalar":              "declared names {X-Val, X-Request-Id, Etag, x-val, X-VAL, X-Request-ID, X_Val} x every value that is a valid HTTP field value; plus the atoms that are not (outside the guarantee)",
+	"header-array":               "collectionFormat {none csv pipes} x item lists over the valid atoms",
+	"form-urlencoded":            "methods {POST PUT PATCH DELETE} x auth writer {no, yes} x values; field names {$top, filter[a], 'a b', é, a&b=c} x atoms",
+	"form-urlencoded-array":      "collectionFormat {none csv ssv tsv pipes multi} x item lists",
+	"form-multipart":             "methods {POST PUT PATCH DELETE} x auth writer x values; field names {$top, filter[a], 'a b', é, a\"b, a\\b, a;b} x atoms",
+	"form-multipart-array":       "collectionFormat {csv pipes multi} x item lists",
+	"file":                       "lengths {0 1 2 511 512 513 5000 70000} x 18 file names (quotes, backslashes, directories, non-ASCII, empty, dot-dot, control bytes) x 2 content patterns x with/without a form field x auth writer; file parameter names x lengths; two files x lengths x lengths; 1 MiB and 5 MiB files",
+	"body-json":                  "methods {POST PUT PATCH DELETE} x auth writer x values (as string member, key suffix, array element, nested member); pairs of 15 numeric/boolean/null members (int64 and float64 boundaries); array-of-string bodies x item lists; body next to path, query and header values x atoms",
+	"body-string-schema":         "{text/plain, application/octet-stream, JSON string} x auth writer x atoms",
+	"typed-scalar":               "location {path query header urlencoded-form multipart-form} x {integer int64/int32/none, number double/float/none, boolean} x boundary literals",
+	"typed-array":                "location {query form header} x item type x {csv multi} x (empty, every 1-list, every 2-list of the boundary literals)",
+	"response-status":            "methods {GET POST PUT DELETE HEAD} x body kind {none json json-array text bytes} x statuses {200 201 202 204 400 401 403 404 409 422 500 503}, two response headers (one multi-valued, one with a lower-case name)",
+	"response-header":            "status {200 404} x every valid field value, once alone and once in a two-valued header",
+	"response-body":              "status {200 404} x {text bytes json} x values; JSON numbers at the boundaries; bodies of 1..1 MiB",
+	"response-plain-payload":     "handler returns the payload itself: success code of the description {200 201 202 204} x {json json-array text bytes} x atoms",
+	"response-error":             "handler returns an error: statuses {400 401 403 404 409 422 500 503} x produces {json text} x atoms as message",
+	"combined":                   "base paths {/api, /} x auth writer x {json body, urlencoded field, multipart field} x every value valid in all positions, the same value in path, query, header and body/field, echoed in a response header and body with status 201",
+	"sibling-operations":         "descriptions with 3-4 other operations (same template under another method, longer and shorter templates): base paths {/api, /} x methods {GET PUT} x values (one placeholder) and atoms x atoms (two placeholders)",
+	"long-values":                "lengths {255 256 4096 65536} x 3 repeating units, the same value in path, query, header, body/field and echoed back",
+	"media-type-spelling":        "consumes / produces spelled with a charset parameter (application/json, text/plain)",
+	"template-composite-segment": "base paths {/api, /} x templates {/files/{id}-x, /files/{id}.json/meta, /files/v{id}, /files/v{id}.json} x atoms without the literal characters; templates {/files/{a}-{b}, /files/{a}.{b}/z} x those atoms x those atoms",
+	"sequences-on-one-instance":  "per world (base path /api; thorough also /): one description with 7 operations (POST /things with a string body in json/text/bytes and json/text responses; POST /things/{id}; PUT /things with an object body; POST /forms in urlencoded and multipart; GET /things producing json/text/bytes; POST /upload; GET /things/{id}/sub), an alphabet of 30 round trips over them (different media types, values, statuses, with/without auth writer); EVERY ordered pair of the alphabet (900), thorough: every ordered triple of 14 core steps (2744), and the whole alphabet forward then backward (60 steps) - each sequence on ONE server instance and ONE client.Runtime, every step judged by the identity oracle and compared with the observation of the same step alone on a fresh instance",
+	"sequences-baseline-alone":   "each step of the alphabet alone on a fresh instance of the world's description",
+	"template-shape":             "base paths {/api, /} x templates {/, /items/, /items/{id}/, literals with space, non-ASCII, '+', ':', ';'} x methods {GET POST}; base paths with space, non-ASCII, ';'",
+	"triples-path":               "thorough: every concatenation of three atoms as a path value",
+	"triples-query":              "thorough: every concatenation of three atoms as a query value",
+	"triples-header":             "thorough: every concatenation of three atoms that is a valid field value as a header value",
+	"triples-form-multipart":     "thorough: every concatenation of three atoms as a multipart field value",
+	"triples-form-urlencoded":    "thorough: every concatenation of three atoms as an urlencoded field value",
 }
